@@ -135,7 +135,11 @@ fn c06_plan(cfg: &Cfg) -> UnaryPlan {
 pub fn run(cfg: &Cfg) -> Option<(Part, Value, bool)> {
     ROOT_FINDINGS_COUNT.store(cfg.prop == "C03", std::sync::atomic::Ordering::Relaxed);
     match cfg.prop.as_str() {
-        "C01" => Some(arith::run_bin_plan(cfg, &c01_plan(cfg))),
+        "C01" => {
+            let (p, b, e) = arith::run_bin_plan(cfg, &c01_plan(cfg));
+            let prim = crate::prims::run(cfg);
+            Some((p.merge(prim), serde_json::json!({"operators": b, "primitive_sweep": "mask/cadd/csub/wmul of all six word types through the verif-hooks re-export: u8 complete (2^24 cadd cases), native-integer lattice cubed for wider types, exact big-integer oracle"}), e))
+        }
         "C02" => Some(arith::run_bin_plan(cfg, &c02_plan(cfg))),
         "C04" => Some(merge3(arith::run_bin_plan(cfg, &c04_plan(cfg)), arith::run_unary_plan(cfg, &c04_not(cfg)))),
         "C05" => Some(arith::run_unary_plan(cfg, &c05_plan(cfg))),
@@ -183,7 +187,7 @@ pub fn replay(j: &Value, profile: &'static str, dbg: bool) -> i32 {
                 return 2;
             }
         }
-    } else if let Some(r) = crate::convs::run_cmd(check, dbg).or_else(|| crate::iters::run_cmd(check)).or_else(|| crate::overflow::run_cmd(check, dbg)) {
+    } else if let Some(r) = crate::convs::run_cmd(check, dbg).or_else(|| crate::iters::run_cmd(check)).or_else(|| crate::prims::run_cmd(check)).or_else(|| crate::overflow::run_cmd(check, dbg)) {
         match r {
             Ok(ms) => {
                 let mut p = Part::new();
